@@ -21,7 +21,9 @@ use std::time::{Duration, Instant};
 use serde_json::{Value, json};
 use sozu_command_lib::proto::command::{Request, ResponseStatus, WorkerResponse, response_content::ContentType};
 use vh::wctl::{self, Addrs, MockBackends};
-use vh::worker::Worker;
+use sozu_command_lib::scm_socket::Listeners;
+use sozu_command_lib::state::ConfigState;
+use vh::worker::{Worker, server_config};
 
 struct Rng(u64);
 impl Rng {
@@ -117,7 +119,19 @@ fn drive(run: u64, seed: u64, index_base: u64, port: u16, quiet: Duration) -> Ru
     let all_backends: Vec<String> = BACKENDS.iter().map(|s| s.to_string()).collect();
     let _mocks = MockBackends::start(&ad, &all_backends);
     let listeners: Vec<String> = LISTENERS.iter().map(|s| s.to_string()).collect();
-    let mut w = Worker::start_empty(&name);
+    // scenario of the run: "sat" = the accept gate closes (max_connections = 2) and a connection
+    // is pending when its listener is deactivated / removed; "keep" = a client connection is held
+    // on a listener while that listener is removed; otherwise random batches only
+    let scenario = match rng.below(100) {
+        0..=11 => "sat",
+        12..=31 => "keep",
+        _ => "random",
+    };
+    let mut w = if scenario == "sat" {
+        Worker::start(&name, server_config(|fc| fc.max_connections = Some(2)), &Listeners::default(), ConfigState::new())
+    } else {
+        Worker::start_empty(&name)
+    };
     let mut reqs: Vec<(String, String)> = Vec::new(); // by id-1
     let mut seen_cmds = 0usize;
     let mut clients: Vec<TcpStream> = Vec::new();
@@ -189,9 +203,70 @@ fn drive(run: u64, seed: u64, index_base: u64, port: u16, quiet: Duration) -> Ru
         got
     };
 
+    let rq = |k: &str, a: &str| (k.to_string(), a.to_string());
+    let mut batches = batches;
+    if scenario == "sat" {
+        let _ = do_batch(&mut w, vec![rq("AddListener", "hA"), rq("Activate", "hA")], &mut ev, &mut reqs, 0, &mut seen_cmds, &mut n_resp);
+        let target = ad.listener("hA").1;
+        let mut held: Vec<TcpStream> = Vec::new();
+        for pause in [0u64, 150, 150, 150] {
+            // two sessions fill max_connections, the third is accepted and refused (the gate
+            // closes), the fourth stays in the backlog: its readiness is only remembered
+            std::thread::sleep(Duration::from_millis(pause));
+            if let Ok(c) = TcpStream::connect_timeout(&target, Duration::from_millis(500)) {
+                held.push(c);
+            }
+        }
+        std::thread::sleep(Duration::from_millis(150));
+        let k = if rng.below(2) == 0 { "Deactivate" } else { "RemoveListener" };
+        let _ = do_batch(&mut w, vec![rq(k, "hA")], &mut ev, &mut reqs, held.len(), &mut seen_cmds, &mut n_resp);
+        drop(held);
+        // capacity comes back: the remembered readiness is replayed
+        std::thread::sleep(Duration::from_millis(400));
+        let _ = do_batch(&mut w, vec![rq("Status", "")], &mut ev, &mut reqs, 4, &mut seen_cmds, &mut n_resp);
+        batches = 0;
+    } else if scenario == "keep" {
+        let l = *rng.pick(&["hA", "hB", "tC", "sD"]);
+        let mut setup = vec![rq("AddListener", l), rq("Activate", l), rq("AddCluster", "c1"), rq("AddBackend", "b1")];
+        match l {
+            "hA" => setup.push(rq("AddHFront", "f1")),
+            "hB" => setup.push(rq("AddHFront", "f4")),
+            "tC" => setup.push(rq("AddTFront", "t1")),
+            _ => {}
+        }
+        let _ = do_batch(&mut w, setup, &mut ev, &mut reqs, 0, &mut seen_cmds, &mut n_resp);
+        if let Ok(mut c) = TcpStream::connect_timeout(&ad.listener(l).1, Duration::from_millis(500)) {
+            if l == "tC" {
+                // make sure the session is relayed to the backend before the listener goes away
+                use std::io::Read;
+                let _ = c.set_read_timeout(Some(Duration::from_millis(1500)));
+                let _ = c.write_all(b"PING\n");
+                let mut b = [0u8; 16];
+                let _ = c.read(&mut b);
+            }
+            clients.push(c);
+            std::thread::sleep(Duration::from_millis(100));
+        }
+        let k = if rng.below(10) < 7 { "RemoveListener" } else { "Deactivate" };
+        let _ = do_batch(&mut w, vec![rq(k, l)], &mut ev, &mut reqs, clients.len() + 1, &mut seen_cmds, &mut n_resp);
+        if wctl::peek_events(&name).iter().any(|c| c.verb == "ReturnListenSockets") {
+            wctl::drain_scm(w.scm_main_to_worker.raw_fd());
+        }
+        let seen = wctl::run_probes(&ad, &listeners, quiet);
+        probe_conns = 0;
+        for (l2, m) in seen {
+            for (h, out) in m {
+                if out != "refused" {
+                    probe_conns += 1;
+                }
+                ev.push(json!({"ev": "probe", "run": run, "l": l2, "h": h, "out": out}));
+                n_probe += 1;
+            }
+        }
+    }
     // most runs start with a set-up batch (shuffled, still back-to-back on the real channel) so
     // that the random requests that follow meet listeners, clusters, routes and backends
-    if rng.below(10) < 8 {
+    if scenario == "random" && rng.below(10) < 8 {
         let mut setup: Vec<(String, String)> = Vec::new();
         for l in LISTENERS {
             if rng.below(10) < 6 {
